@@ -7,9 +7,23 @@ REQUIRED_THEOREMS = ["Gv.Props.C04." + n for n in [
     "subAlign_ok_iff", "subAlign_never_panics", "subAlign_rows", "subAlign_lengths", "prefix_window_suffix",
     "inverseCoordinates_spec", "selectSites_ok_iff", "selectSites_never_panics", "selectSites_rows",
     "inversePositions_complement", "inversePositions_error_iff", "refCoordinates_window",
-    "refCoordinates_error_of_short", "diff_then_replace_id", "addRange_never_panics"]]
+    "refCoordinates_error_of_short", "diff_then_replace_id", "addRange_never_panics",
+    # reference coordinates: error characterisation, minimality, residues, composition with SubAlign/InverseCoordinates
+    "refCoordinates_ok_iff", "refCoordinates_never_panics", "refCoordinates_minimal", "refCoordinates_residues",
+    "refCoordinates_then_subAlign",
+    # RefSites
+    "refSites_ok_iff", "refSites_never_panics", "refSites_spec", "refSites_of_refCoordinates",
+    # complementary extractions
+    "inverseCoordinates_partition", "inverse_windows_reassemble", "inversePositions_of_window",
+    "selectSites_inversePositions_ok",
+    # Transpose, Split
+    "transpose_spec", "transpose_transpose", "transpose_twice_drops_zero_length_rows",
+    "newPartSet_partInv", "addRange_partInv", "split_reinterleave_id", "split_blocks", "split_ok_iff"]]
 LEVEL_TEXT = ("Lean theorems about the model of SubAlign / SelectSites / InverseCoordinates / InversePositions / RefCoordinates / "
-              "RefSites / Transpose / Diff+Replace / AddRange / Split for all alignments and all integer arguments; tied to /repo by "
+              "RefSites / Transpose / Diff+Replace / AddRange / Split for all alignments and all integer arguments (success iff "
+              "in range, never a panic; addressed columns in addressed order; the reference window is the smallest one and "
+              "RefSites of a contiguous request spans it; prefix+window+suffix, transposing twice and re-interleaving the blocks "
+              "of a total partition give the alignment back; InversePositions of a window = expansion of InverseCoordinates); tied to /repo by "
               "differential correspondence with every integer argument drawn from {-1,0,1,L-1,L,L+1} and random values, and an "
               "independently stated predicate (addressed columns in addressed order; error, not crash, outside) evaluated on the "
               "implementation's result.")
@@ -19,8 +33,13 @@ RULE = ("alignments of 0..5 rows x 0..9 columns with gap runs (leading/trailing/
         "{-1,0,1,L-1,L,L+1} + random; site lists with repeats in any order; partitions by ranges with modulo (incl. codon "
         "partitions, overlaps, gaps, huge modulo); non-trivial = at least one argument is a boundary value")
 NEEDS_BINARY = True
-PARTIAL = ["not yet Lean theorems (checked by the independent predicate on the implementation and by correspondence): "
-           "RefSites, Transpose twice, Split re-interleaving, Concat/Append (modelled in C01), TrimSequences (C01)",
+PARTIAL = ["not Lean theorems here (checked by the independent predicate on the implementation and by correspondence): "
+           "Concat/Append and TrimSequences (modelled with the container in C01)",
+           "Transpose twice: names become site indices, and an alignment without columns (empty, or rows of length 0) comes "
+           "back empty (theorem transpose_twice_drops_zero_length_rows); the identity is proved for the residues of every "
+           "rectangular alignment with at least one column",
+           "Split re-interleaving is proved for tables that are well formed (PartInv: preserved by every AddRange, theorem "
+           "addRange_partInv) and total (what CheckSites tests); a partial table is outside the statement",
            "CLI glue of cmd/subseq, subsites, split, extract is exercised on the built binary only for the --ref-seq path"]
 
 NT = "ACGT"
